@@ -1,7 +1,5 @@
-import Ysshra.Wire.JsonIO
-import Ysshra.Model.CertType
-import Ysshra.Spec.C05
-import Ysshra.Spec.C19
+import Ysshra.Drv.Codec
+import Ysshra.Drv.Msg
 /-
 `ymodel`: the executable models and specification predicates behind a line protocol.
   in : id \t op \t arg… [\t ## \t implementation-output…]
@@ -9,96 +7,15 @@ import Ysshra.Spec.C19
        id \t S \t ok | bad:<clause>
 Core-only imports (links as a `lean_exe`).
 -/
-open Ysshra Ysshra.IO
+open Ysshra Ysshra.IO Ysshra.Drv
 
-def showStrList (l : List Str) : String := "[" ++ String.intercalate "|" (l.map hexOfStr) ++ "]"
+def handlers : List (String → List String → Option (List String) → Option Reply) :=
+  [handleCodec, handleMsg]
 
-def parseStrList (s : String) : Option (List Str) :=
-  if s == "[]" then some []
-  else if s.startsWith "[" && s.endsWith "]" then
-    (((s.drop 1).dropEnd 1).toString.splitOn "|").mapM strOfHex
-  else none
-
-/-- `nil` or `map:k=v,k=v` (hex) -/
-def parseCrit (s : String) : Option (Option (List (Str × Str))) :=
-  if s == "nil" then some none
-  else if s == "map:" then some (some [])
-  else if s.startsWith "map:" then
-    ((s.drop 4).toString.splitOn ",").mapM (fun (kv : String) =>
-      match kv.splitOn "=" with
-      | [k, v] => do pure ((← strOfHex k), (← strOfHex v))
-      | _ => none) |>.map some
-  else none
-
-structure Reply where
-  model : List String
-  spec : Option String := none   -- `none`: no verdict asked / possible; `some "ok"`, `some "bad:…"`
-
-def verdict (o : Option String) : String := match o with
-  | none => "ok"
-  | some c => "bad:" ++ c
-
-def badProto : Reply := ⟨["protocol-error"], some "bad:protocol"⟩
-
-/-- Stateless operations. `impl` is the implementation's output fields when present. -/
-def handleStateless (op : String) (args : List String) (impl : Option (List String)) : Option Reply :=
-  match op, args with
-  | "keyid.rt", [kidS] =>
-    match parseKid kidS with
-    | none => some badProto
-    | some k =>
-      let model := match KeyID.marshal k with
-        | .error _ => ["err"]
-        | .ok j =>
-          let dec := match KeyID.unmarshal (some j) with
-            | .ok k' => showKid k'
-            | .error _ => "err"
-          ["ok", showJ j, dec]
-      let spec := impl.map fun out =>
-        match out with
-        | ["err"] => verdict (Spec.C05.rt k .encErr)
-        | ["ok", _, decS] =>
-          let dec := if decS == "err" then none else parseKid decS
-          if decS != "err" && dec.isNone then "bad:protocol" else
-          verdict (Spec.C05.rt k (.encOk none dec))
-        | _ => "bad:protocol"
-      some ⟨model, spec⟩
-  | "keyid.dec", jS :: _ =>
-    match jvalOfField jS with
-    | none => some badProto
-    | some t =>
-      let model := match KeyID.unmarshal t with
-        | .ok k => ["ok", showKid k]
-        | .error _ => ["err"]
-      let spec := impl.map fun out =>
-        match out with
-        | ["err"] => verdict (Spec.C05.dec t none)
-        | ["ok", kS] => match parseKid kS with
-          | some k => verdict (Spec.C05.dec t (some k))
-          | none => "bad:protocol"
-        | _ => "bad:protocol"
-      some ⟨model, spec⟩
-  | "certtype", jS :: critS :: prinsS :: _ =>
-    match (if jS == "nilcert" then some none else (jvalOfField jS).map some), parseCrit critS,
-          parseStrList prinsS with
-    | some jt, some crit, some ps =>
-      let cert : Option CertView := jt.map fun t => ⟨t, crit⟩
-      let t := getType cert
-      let lbl := match certLabel cert with
-        | none => "none"
-        | some l => hexOfStr l
-      let model := [toString t.toNat, lbl, showStrList (getPrincipals ps t)]
-      let spec := impl.map fun out =>
-        match out with
-        | [tS, lS, pS] =>
-          match tS.toNat?, (if lS == "none" then some none else (strOfHex lS).map some),
-                parseStrList pS with
-          | some tn, some l, some ps' => verdict (Spec.C19.check cert ps ⟨tn, l, ps'⟩)
-          | _, _, _ => "bad:protocol"
-        | _ => "bad:protocol"
-      some ⟨model, spec⟩
-    | _, _, _ => some badProto
-  | _, _ => none
+def dispatch (op : String) (args : List String) (impl : Option (List String)) : Reply :=
+  match handlers.findSome? (fun h => h op args impl) with
+  | some r => r
+  | none => ⟨["unknown-op"], some "bad:protocol"⟩
 
 def splitImpl (fs : List String) : List String × Option (List String) :=
   match fs.span (· != "##") with
@@ -115,9 +32,7 @@ partial def loop (hin : IO.FS.Stream) (hout : IO.FS.Stream) : IO Unit := do
     match line.splitOn "\t" with
     | id :: op :: rest =>
       let (args, impl) := splitImpl rest
-      let r := match handleStateless op args impl with
-        | some r => r
-        | none => ⟨["unknown-op"], some "bad:protocol"⟩
+      let r := dispatch op args impl
       hout.putStrLn (String.intercalate "\t" (id :: "M" :: r.model))
       match r.spec with
       | some v => hout.putStrLn (String.intercalate "\t" [id, "S", v])
